@@ -163,6 +163,12 @@ func (e *Eval) Val(v ssa.Value) (constant.Value, bool) {
 		if a, ok := e.Val(x.X); ok && a.Kind() == constant.Int && core.IsInteger(x.Type()) {
 			return Wrap(a, x.Type()), true
 		}
+		// string(b) of an integer value (byte, rune): the one-character string
+		if a, ok := e.Val(x.X); ok && a.Kind() == constant.Int && core.IsString(x.Type()) && core.IsInteger(x.X.Type()) {
+			if k, exact := constant.Int64Val(a); exact && k >= 0 && k <= 0x10FFFF {
+				return constant.MakeString(string(rune(k))), true
+			}
+		}
 	case *ssa.ChangeType:
 		return e.Val(x.X)
 	case *ssa.Phi:
